@@ -9,8 +9,8 @@ from vlib.verdict import Case
 
 PROPERTY = 'C12'
 MANIFEST = {
- 'level_text': 'Lean 4 theorems, kernel-checked, about an executable model of the whole splitting pipeline. (1) byteTextWrap/splitBytes: for every chunk list and every size >= 4 the loop terminates normally, the lines concatenate to the munged text, none exceeds the size, none is empty. (2) FormatContext/FormatParser/ircutils.wrap: re-opening a context costs at most size() bytes; by a simulation proof, for EVERY text (colours, bold/underline/reverse, over-long words, multi-byte characters) whose wrapped lines do not begin with a digit or comma the contexts recomputed from the produced lines are those of the text, hence every line fits the requested length and the client-visible text (stripFormatting modelled as a state machine) of the lines concatenates to the visible text of the input; unconditionally for text without colour codes. (3) reply arithmetic: every message of a chunked (or single) reply, prefixed with the bot hostmask as the server relays it, is at most 512 bytes, for every target / nick-prefix / notice / private / to= combination, hostmask, nick and reply.mores.{maximum,instant} setting. (4) more protocol: first answer plus successive more commands deliver the chunks in order, each exactly once, each followed by the exact count of messages remaining, for every instant and sequence of batch sizes, and — non-interference theorem over arbitrary traces — whatever other requesters do meanwhile (their own replies, more, more <nick> on this very reply). The three places where the full statements are false on the pinned tree are kept visible with proved counter-examples and are listed known findings. Constants (512, suffix texts, FormatContext sizes, control characters, getInt base/limit, splitBytes tries, the stripColor regex) are re-extracted from /repo on every run; the model is tied to the code by a differential run (pure functions on tens of thousands of generated strings; real replies + more on a live bot through the synthetic plugin VtLong) that also evaluates the property statement on the implementation.',
- 'level_note': 'Trusted: Lean kernel (axioms propext/Classical.choice/Quot.sound only); harness/extractors/reply.py; the correspondence harness (generators bound what it sees); parameters of the model: textwrap.TextWrapper()._split_chunks (contract: chunks concatenate to the munged text, checked by the model driver on every case), repr() in safeArgument (the model takes the text after safeArgument), irc.isChannel (three booleans), \\d of the stripColor regex restricted to ASCII digits. Modelled: splitBytes, byteTextWrap, textwrap whitespace munging, FormatContext.start/end/size, FormatParser.parse/getInt/getColor, ircutils.wrap, stripFormatting, _makeReply (command, target, nick prefix, strip of \\x01, empty-message text), the length-checked branch of NestedCommandsIrcProxy.reply (allowedLength, truncation, suffix reserve, suffixes, instant, _mores), Misc.more including more <nick> (the shared _mores dictionary as a heap of list objects keyed by rfc1459-lowered user@host and nick, the copy made by more <nick>, callers sharing a user@host). Not modelled: nested/not-final replies, action/error replies, reply(to=<known nick>) rebinding the hostmask key, translations other than English, reply.mores off, an explicit reply.mores.length (512 is then the operator\'s business; correspondence still covers it). Five defects were repaired in /repo (fixes/C12-*.patch); three are recorded findings: cut of an over-long word inside a \\x03NN sequence, re-opened colour code running into the digits/comma that follow, reply.mores.maximum counted in characters.',
+ 'level_text': 'Lean 4 theorems, kernel-checked, about an executable model of the whole splitting pipeline. (1) byteTextWrap/splitBytes: for every chunk list and every size >= 4 the loop terminates normally, the lines concatenate to the munged text, none exceeds the size, none is empty. (2) FormatContext/FormatParser/ircutils.wrap: re-opening a context costs at most size() bytes; by a simulation proof, for EVERY text (colours, bold/underline/reverse, over-long words, multi-byte characters) whose wrapped lines do not begin with a digit or comma the contexts recomputed from the produced lines are those of the text, hence every line fits the requested length and the client-visible text (stripFormatting modelled as a state machine) of the lines concatenates to the visible text of the input; unconditionally for text without colour codes. (3) reply arithmetic: every message of a chunked (or single) reply, prefixed with the bot hostmask as the server relays it, is at most 512 bytes, for every target / nick-prefix / notice / private / to= combination, hostmask, nick, reply.mores.{maximum,instant} setting, per-channel configuration value and shipped locale (the suffix reserve is proved sufficient for every row of the table extracted from locales/*.po); with an explicit reply.mores.length every line is at most frame + length bytes, and a counter-example shows 512 is then up to the operator; replies that bypass the check (irc.error, action, reply.mores off) are proved to be one message cut at 512 outgoing bytes (a recorded finding). (4) more protocol: first answer plus successive more commands deliver the chunks in order, each exactly once, each followed by the exact count of messages remaining, for every instant and sequence of batch sizes, and — non-interference theorem over arbitrary traces — whatever other requesters do meanwhile (their own replies, more, more <nick> on this very reply). The places where the full statements are false on the pinned tree are kept visible with proved counter-examples and are listed known findings. Constants (512, suffix texts, FormatContext sizes, control characters, getInt base/limit, splitBytes tries, the stripColor regex) are re-extracted from /repo on every run; the model is tied to the code by a differential run (pure functions on tens of thousands of generated strings; real replies + more on a live bot through the synthetic plugin VtLong) that also evaluates the property statement on the implementation.',
+ 'level_note': 'Trusted: Lean kernel (axioms propext/Classical.choice/Quot.sound only); harness/extractors/reply.py (constants and the locales/*.po table); the correspondence harness (generators bound what it sees); parameters of the model: textwrap.TextWrapper()._split_chunks (contract: chunks concatenate to the munged text, checked by the model driver on every case), repr() in safeArgument (the model takes the text after safeArgument), irc.isChannel / ircutils.isChannel / isNick / state.nickToHostmask (booleans and one optional hostmask per call), \\d of the stripColor regex restricted to ASCII digits. Modelled: splitBytes, byteTextWrap, textwrap whitespace munging, FormatContext.start/end/size, FormatParser.parse/getInt/getColor (two-digit limit), ircutils.wrap, stripFormatting, _makeReply (command, target, nick prefix, error=True, action=True, strip of \\x01, empty-message text), one call of irc.reply / irc.error with its configuration lookups (global values and the values of one channel for reply.mores.*, withNotice, inPrivate, withNickPrefix, error.*), the length-checked branch of reply (allowedLength explicit or computed, truncation, suffix reserve in every shipped locale, suffixes, instant), the shapes that bypass it (action, error, reply.mores off) followed by Irc._truncateMsg, nested replies (cut to reply.maximumLength), the shared _mores dictionary (heap of list objects keyed by rfc1459-lowered user@host and nick; the key is the hostmask of to= when it is a known nick), Misc.more and more <nick>. Not modelled: attributes leaking from an inner nested reply with keywords into the outer one, statusmsg-prefixed targets, network-specific configuration values, locales other than the five shipped. Seven defects were repaired in /repo (fixes/C12-*.patch); four are recorded findings: cut of an over-long word inside a \\x03NN sequence, re-opened foreground colour followed by \",<digit>\", reply.mores.maximum counted in characters, error/action replies not length-checked.',
  'technique': 'Lean 4 proof (induction over fuel/strings, loop invariants, simulation between two parser runs, finite tables by decide) + constant extraction + differential correspondence (pure + live bot)',
  'design_ref': 'DESIGN.md §6 C12',
 }
@@ -26,6 +26,7 @@ THEOREMS = [
     'C12.two_requesters', 'C12.more_protocol_interleaved', 'C12.adopt_copy',
     'C12.fits_length_partial', 'C12.fits_length_nocolour', 'C12.fits_length_clean', 'C12.length_overflow_counterexample',
     'C12.locale_texts_ok', 'C12.sentLine_le', 'C12.action_reply_single', 'C12.replyCall_normal', 'C12.unchecked_counterexample',
+    'C12.mores_off_single', 'C12.nested_arg', 'C12.fits_512_call', 'C12.storeMask_cases',
 ]
 TRUSTED = ['Lean 4.33.0 kernel; axioms ⊆ {propext, Classical.choice, Quot.sound}',
            'harness/extractors/reply.py (constants of splitBytes, FormatContext, FormatParser, reply, _makeReply → Gen/Reply.lean)',
@@ -856,7 +857,8 @@ def gen_live_input(r, thorough=False):
     if r.random() < 0.5: text = text.rstrip()
     if r.random() < 0.03: text = '\x01' + text
     if r.random() < 0.02: text = text[:len(text) // 2] + '\n' + text[len(text) // 2:]
-    if shape == 'nested':
+    if shape != 'reply':
+        # safeArgument (repr) is a parameter of the model, applied by the harness to the text alone
         text = text.replace('\n', ' ')
     inp = {'cfg': cfg, 'prefix': prefix, 'target': target, 'kw': kw, 'text': text or 'x', 'prefixB': prefixB}
     if shape != 'reply':
